@@ -4,11 +4,13 @@
 //!   svcheck replay <replay.json>
 //!   svcheck conformance
 
+mod checks;
 mod comp;
 mod conformance;
 mod engine;
 mod exec;
 mod model;
+mod oracle;
 mod report;
 
 use report::{finish, Outcome};
@@ -49,6 +51,25 @@ fn comp_outcome(prop: &str, args: &Args, agg: comp::CompAgg, rule: &str, t0: Ins
     }
 }
 
+fn run_spec(spec: checks::Spec, args: &Args, t0: Instant) -> i32 {
+    let mut rc = engine::RunCfg::new(args.secs);
+    rc.threads = args.threads;
+    let njobs = spec.jobs.len();
+    let agg = engine::run_jobs(spec.jobs, spec.oracle, spec.interesting, rc);
+    let reported = agg.violations.iter().map(|v| report::Reported::from_found(spec.id, spec.id, v)).collect();
+    let coverage = report::coverage_from_agg(&agg, &spec.rule, json!({ "programs_generated": njobs }));
+    finish(Outcome {
+        property: spec.id.into(),
+        tier: args.tier.clone(),
+        seed: args.seed,
+        coverage,
+        assumptions: spec.assumptions,
+        reported,
+        machinery_errors: agg.machinery_errors,
+        wall_s: t0.elapsed().as_secs_f64(),
+    })
+}
+
 fn run_check(id: &str, args: &Args) -> i32 {
     let t0 = Instant::now();
     match id {
@@ -74,10 +95,122 @@ fn run_check(id: &str, args: &Args) -> i32 {
                 &["the false-positive clause is checked for well-mixed probe hashes (splitmix64 enumeration), against add-sets from three families"],
             ))
         }
+        "C07" => {
+            let agg = comp::run_cases("C07", "c07", comp::c07_cases(&args.tier), comp::c07_case, args.threads);
+            finish(comp_outcome(
+                "C07",
+                args,
+                agg,
+                "real LFUPolicy::add (driven without its worker thread): residents n in 0..=7, cost vectors {1,3}^n, popularity vectors {0,1,3}^n built by real increments (all for n<=5 quick / n<=6 thorough, structured subsets above), max_cost in {sum-1 (over budget), sum, sum+1}, incoming cost {1,3,5}, incoming hits 0..=4; every sampling round is observed (cfg-guarded observer) and checked against the actual estimates read from the real sketch; non-trivial = at least one sampling round ran",
+                t0,
+                &["popularity estimates are read from the real sketch (1024 counters, no collisions among the <=8 keys used), so estimator collisions cannot cause false alarms", "phantom re-samples of an already evicted candidate are tolerated (they evict nothing)"],
+            ))
+        }
+        "C01" => run_spec(checks::c01(&args.tier, model::Flavor::Sync), args, t0),
+        "C02" => run_spec(checks::c02(&args.tier, model::Flavor::Sync), args, t0),
+        "C06" => run_spec(checks::c06(&args.tier, model::Flavor::Sync), args, t0),
+        "C08" => run_spec(checks::c08(&args.tier, model::Flavor::Sync), args, t0),
+        "C10" => run_spec(checks::c10(&args.tier, model::Flavor::Sync), args, t0),
+        "C11" => run_spec(checks::c11(&args.tier, model::Flavor::Sync), args, t0),
+        "C12" => run_spec(checks::c12(&args.tier, model::Flavor::Sync), args, t0),
+        "C17" => run_spec(checks::c17(&args.tier, model::Flavor::Sync), args, t0),
+        "C03" => run_spec(checks::c03(&args.tier, model::Flavor::Sync), args, t0),
+        "C04" => run_spec(checks::c04(&args.tier, model::Flavor::Sync), args, t0),
+        "C05" => run_spec(checks::c05(&args.tier, model::Flavor::Sync), args, t0),
+        "C09" => run_spec(checks::c09(&args.tier, model::Flavor::Sync), args, t0),
+        "C16" => run_spec(checks::c16(&args.tier, model::Flavor::Sync), args, t0),
         other => {
             eprintln!("unknown check {}", other);
             2
         }
+    }
+}
+
+/// Re-run one recorded violation twice: identical observations and the same verdict are required.
+fn replay(path: &str, show_trace: bool) -> i32 {
+    let txt = match std::fs::read_to_string(path) {
+        Ok(t) => t,
+        Err(e) => {
+            eprintln!("machinery: cannot read {}: {}", path, e);
+            return 2;
+        }
+    };
+    let r: report::Reported = match serde_json::from_str(&txt) {
+        Ok(r) => r,
+        Err(e) => {
+            eprintln!("machinery: cannot parse {}: {}", path, e);
+            return 2;
+        }
+    };
+    println!("replaying {} class={} case={}", r.property, r.class, r.case_text);
+    if r.replay["kind"] == "comp" {
+        let check = r.replay["check"].as_str().unwrap_or("");
+        let f: comp::CaseFn = match check {
+            "c13" => comp::c13_case,
+            "c14" => comp::c14_case,
+            "c07" => comp::c07_case,
+            "c18" => comp::c18_case,
+            _ => {
+                eprintln!("machinery: unknown component check {}", check);
+                return 2;
+            }
+        };
+        let mut verdicts = Vec::new();
+        for _ in 0..2 {
+            let agg = comp::run_cases(&r.property, check, vec![r.replay["case"].clone()], f, 1);
+            let mut v: Vec<(String, String)> = agg.reported.iter().map(|x| (x.class.clone(), x.msg.clone())).collect();
+            v.sort();
+            verdicts.push(v);
+        }
+        if verdicts[0] != verdicts[1] {
+            eprintln!("MACHINERY-ERROR: replay is not deterministic");
+            return 2;
+        }
+        for (c, m) in &verdicts[0] {
+            println!("  {}: {}", c, m);
+        }
+        return if verdicts[0].iter().any(|(c, _)| *c == r.class) {
+            println!("VIOLATION property={} replay={}", r.property, path);
+            1
+        } else {
+            println!("replay: the recorded violation does not occur on this tree");
+            0
+        };
+    }
+    let v: engine::FoundViolation = match serde_json::from_value(r.replay["violation"].clone()) {
+        Ok(v) => v,
+        Err(e) => {
+            eprintln!("machinery: bad replay record: {}", e);
+            return 2;
+        }
+    };
+    let oracle = match checks::oracle_for(&r.check) {
+        Some(o) => o,
+        None => {
+            eprintln!("machinery: no oracle for {}", r.check);
+            return 2;
+        }
+    };
+    if show_trace {
+        engine::print_trace(&v);
+    }
+    let (same, found, errs) = engine::replay_violation(&v, oracle);
+    for e in &errs {
+        eprintln!("MACHINERY-ERROR: {}", e);
+    }
+    if !same || !errs.is_empty() {
+        eprintln!("MACHINERY-ERROR: the two replays of the recorded schedule differ (uncontrolled nondeterminism)");
+        return 2;
+    }
+    for (c, m) in &found {
+        println!("  {}: {}", c, m);
+    }
+    if found.iter().any(|(c, _)| *c == r.class) {
+        println!("VIOLATION property={} replay={}", r.property, path);
+        1
+    } else {
+        println!("replay: the recorded violation does not occur on this tree (schedule replayed twice, identical observations)");
+        0
     }
 }
 
@@ -101,6 +234,7 @@ fn main() {
                 args.secs = argv[i + 1].parse().unwrap();
                 i += 1;
             }
+            "--trace" => {}
             "--threads" => {
                 args.threads = argv[i + 1].parse().unwrap();
                 i += 1;
@@ -115,6 +249,7 @@ fn main() {
     let code = match pos.first().map(|s| s.as_str()) {
         Some("run") => run_check(&pos[1], &args),
         Some("conformance") => conformance::run(),
+        Some("replay") => replay(&pos[1], argv.iter().any(|a| a == "--trace")),
         _ => {
             eprintln!("usage: svcheck run <Cxx> [--tier quick|thorough] | replay <file> | conformance");
             2
